@@ -280,6 +280,12 @@ class SymbolTable(dict):
         name_parts = self.format_lookup_name(key)  # pylint: disable=assignment-from-no-return
         super().__setitem__(name_parts, value.clone())
 
+    def __delitem__(self, key):
+        super().__delitem__(self.format_lookup_name(key))
+
+    def pop(self, key, *args):
+        return super().pop(self.format_lookup_name(key), *args)
+
     def __hash__(self):
         return hash(tuple(self.keys()))
 
